@@ -211,6 +211,7 @@ def explore(chk):
     c12_region.explore(chk, pycaption)
     # ---------------- DFXP round trip: effective layout per visible character (1-3 languages, each with its own layout or none)
     LANGS = ["en-US", "fr-FR", "de-DE"]
+    empty_sub = chk.sub("empty_layout_object")
     for _ in range(150 if chk.tier == "quick" else 5000):
         opts = rng.choice([{}, {"fit_to_screen": False}, {"relativize": False, "fit_to_screen": False}])
         feature = False
@@ -221,6 +222,8 @@ def explore(chk):
             caps = []
             for k in range(rng.randint(1, 3)):
                 cap_l = mk_layout_desc(rng) if rng.random() < 0.5 else None
+                if lang_l is not None and cap_l is None and empty_sub.random() < 0.25:
+                    cap_l = {}        # a Layout object with every part absent says nothing: the language's layout applies
                 nodes = []
                 for j in range(rng.randint(1, 2)):
                     if j:
@@ -272,11 +275,11 @@ def explore(chk):
             return dict(d_, extent=["%s%%" % float(w_), "%s%%" % float(h_)])
         def eff(node_l, cap_l, lang_l):
             l = None
-            if node_l is not None:
+            if node_l:
                 l = setbuild.mk_layout(fitted(node_l))
-            elif cap_l is not None:
+            elif cap_l:
                 l = setbuild.mk_layout(fitted(cap_l))
-            elif lang_l is not None:
+            elif lang_l:
                 l = setbuild.mk_layout(lang_l)
             return l
         def with_defaults(l):
